@@ -1,13 +1,14 @@
 """copy confirmed candidates from /tmp/seed/out into /verif/seeded/<PROP>-<k>/"""
 import glob, json, os, shutil, sys
 src = sys.argv[1] if len(sys.argv) > 1 else "/tmp/seed/out"
+prefix = sys.argv[2] if len(sys.argv) > 2 else ""
 for vf in sorted(glob.glob(src + "/C*/[0-9]*/verify.json")):
     d = os.path.dirname(vf)
     v = json.load(open(vf))
     if not v.get("confirmed"):
         print("skip (not confirmed)", d); continue
     prop, k = d.split("/")[-2], d.split("/")[-1]
-    dst = "/verif/seeded/%s-%s" % (prop, k)
+    dst = "/verif/seeded/%s%s-%s" % (prefix, prop, k)
     if os.path.exists(dst):
         continue
     os.makedirs(dst)
@@ -18,6 +19,7 @@ for vf in sorted(glob.glob(src + "/C*/[0-9]*/verify.json")):
     except Exception as e:
         meta = {"property": prop, "note": "agent meta.json unreadable: %s" % e}
     meta["property"] = prop
+    meta["round"] = prefix.rstrip("-") or "R1"
     meta["confirmed_by_main_session"] = {
         "how": "tools/verify_seed.py in a scratch worktree of /repo HEAD (removed afterwards): patch applies; "
                "baseline suite with the change; demo with and without the change",
